@@ -317,6 +317,17 @@ func (w *genWalker) run() {
 					rewritten[p]++
 				case p == "maps" && (sel.Sel.Name == "Keys" || sel.Sel.Name == "Values" || sel.Sel.Name == "All"):
 					w.newSite(curFunc(), "std maps."+sel.Sel.Name, x.Pos(), "", false, "std maps iterator (not rewritten)")
+				case p == "time" && (sel.Sel.Name == "After" || sel.Sel.Name == "NewTimer" || sel.Sel.Name == "AfterFunc" || sel.Sel.Name == "Sleep" || sel.Sel.Name == "Tick" || sel.Sel.Name == "NewTicker"):
+					// timers: a process may be stalled for any length of time, so the simulator may let a timer win any race
+					w.es.replace(w.off(sel.Pos()), w.off(sel.End()), "verifhook.Time"+sel.Sel.Name)
+					w.needHook = true
+					w.rep.TimeRewrites++
+					rewritten[p]++
+				case p == "context" && (sel.Sel.Name == "WithTimeout" || sel.Sel.Name == "WithDeadline"):
+					w.es.replace(w.off(sel.Pos()), w.off(sel.End()), "verifhook.Ctx"+sel.Sel.Name)
+					w.needHook = true
+					w.rep.TimeRewrites++
+					rewritten[p]++
 				case p == "time" && (sel.Sel.Name == "Now" || sel.Sel.Name == "Since" || sel.Sel.Name == "Until"):
 					w.es.replace(w.off(sel.Pos()), w.off(sel.End()), "verifhook.Time"+sel.Sel.Name)
 					w.needHook = true
@@ -346,6 +357,8 @@ func (w *genWalker) run() {
 				tail += "\nvar _ " + name + ".Duration\n"
 			case "golang.org/x/exp/maps":
 				tail += "\nvar _ = " + name + ".Keys[map[string]struct{}]\n"
+			case "context":
+				tail += "\nvar _ " + name + ".Context\n"
 			}
 		}
 	}
